@@ -735,6 +735,12 @@ theorem C32_replicated_full_witness_measurement :
     o.keys = [⟨wDb, wCpu⟩] ∧ o.checked = [wCpu] ∧
       replicate o = [⟨defaultDB, [101, 118, 105, 108, 95, 109]⟩] := by
   decide
+/-- non-vacuity: an accepted CSV import (preamble ok) and a recognised envelope -/
+example : (importPreamble wCfg wDb [] wCpu).status = .ok ∧ (importOne wCfg wDb [] wCpu true [[118]]).keys = [⟨wDb, wCpu⟩] := by
+  decide
+example : parseEnvelope (envelope wDb [129, 161]) = (wDb, [129, 161]) ∧
+    applyInner wDb (.colmap (some wCpu) 2) = [⟨wDb, wCpu⟩] := by decide
+
 /-! ## tie to the current source (facts regenerated by go/factgen/cmd/c32 on every run) -/
 
 /-- the quirks and tables the model hard-wires are the ones the source has NOW: every record case of
